@@ -15,6 +15,7 @@ import (
 	"github.com/containerd/nri/pkg/api"
 	"github.com/containerd/nri/pkg/vhook"
 
+	"verif/harness/isolate"
 	"verif/harness/rawpeer"
 	"verif/harness/rec"
 	"verif/harness/rig"
@@ -168,6 +169,10 @@ func (s *session) faultRun(r *rig.Rig, w *rec.Writer, sc FaultScenario) error {
 			}()
 		case "garbage":
 			peer.WriteGarbage()
+		case "wrong-frame":
+			// a well-formed ttrpc frame of the wrong type (data instead of response) on the stream of this call
+			peer.WriteDataFrames()
+			time.Sleep(3 * faultTimeout)
 		}
 		return nil
 	}
@@ -260,13 +265,32 @@ func (s *session) faultRun(r *rig.Rig, w *rec.Writer, sc FaultScenario) error {
 	// a second request: the dropped plugin must not be reached any more, the others must be
 	s.timedRequest(r, "c1", fmt.Sprintf("q%d-2", s.run), sc.Req, np)
 	rd, wr := peer.Cut.Counts()
-	s.ev("End", "stuck", []string{}, "hung", []string{}, "peer_read", int(rd), "peer_written", int(wr))
+	// did the fault actually happen (a cut placed beyond the traffic never fires)?
+	fired := false
+	switch sc.Fault {
+	case "none", "handler-error":
+	case "hang-ctx":
+		// the handler gives up exactly at the deadline the runtime set: its answer may still make it in time
+	case "cut-request", "cut-response":
+		fired = peer.Cut.IsCut()
+	default:
+		fired = true
+	}
+	if fired {
+		// the runtime notices a lost connection on its own; give the notification time to arrive
+		for t0 := time.Now(); time.Since(t0) < 5*time.Second; time.Sleep(200 * time.Microsecond) {
+			if _, ok := s.closedSeen.Load(peerName); ok {
+				break
+			}
+		}
+	}
+	s.ev("End", "stuck", []string{}, "hung", []string{}, "peer_read", int(rd), "peer_written", int(wr), "faulty", peerName, "fired", fired)
 	vhook.Set(nil)
 	return w.WriteScenario(s.log.Events())
 }
 
 // RunFaults replays fault scenarios (ndjson) and records one run per scenario.
-func RunFaults(in, out string, seed int64) (int, error) {
+func RunFaults(in, out string, seed int64, skip int) (int, error) {
 	f, err := os.Open(in)
 	if err != nil {
 		return 0, err
@@ -277,6 +301,7 @@ func RunFaults(in, out string, seed int64) (int, error) {
 		return 0, err
 	}
 	defer w.Close()
+	w.Sync = true
 	adaptation.SetPluginRequestTimeout(faultTimeout)
 	s := &session{o: Options{}, rng: rand.New(rand.NewSource(seed))}
 	sc := bufio.NewScanner(f)
@@ -291,10 +316,14 @@ func RunFaults(in, out string, seed int64) (int, error) {
 			return 0, err
 		}
 		n++
+		if n <= skip {
+			continue
+		}
 		s.run = n
 		// a fresh adaptation per scenario: nothing lingers from the previous one; a scenario whose set-up
 		// fails (a registration timing out on an overloaded machine) is set up again, nothing was recorded yet
 		var err error
+		done := isolate.Guard(90*time.Second, fmt.Sprintf("fault scenario %d", n))
 		for attempt := 0; attempt < 3; attempt++ {
 			var r *rig.Rig
 			r, err = rig.New()
@@ -308,6 +337,7 @@ func RunFaults(in, out string, seed int64) (int, error) {
 				break
 			}
 		}
+		done()
 		if err != nil {
 			return 0, fmt.Errorf("scenario %d (%s): %w", n, line, err)
 		}
